@@ -247,7 +247,9 @@ func (e *env) runHist(in Input, o *Obs) {
 	fail("dump", err)
 	o.Hist.Obs, o.Hist.States = [][]int64{}, [][]HRow{}
 	for _, op := range in.Hist {
-		base := e.db.Session(&gorm.Session{AllowGlobalUpdate: true, SkipHooks: in.SkipHooks, NowFunc: func() time.Time { return stampTime(op.T) }})
+		// (a write that names its record by key needs no AllowGlobalUpdate: it runs without it)
+		byKey := op.P != nil && (op.P.K == "key" || op.P.K == "vkey")
+		base := e.db.Session(&gorm.Session{AllowGlobalUpdate: !byKey, SkipHooks: in.SkipHooks, NowFunc: func() time.Time { return stampTime(op.T) }})
 		if op.K == "udelete" || op.K == "uupdate" || op.K == "ufind" {
 			base = base.Unscoped()
 		}
